@@ -10,6 +10,7 @@ from torchtree.core.model import CallableModel
 from torchtree.core.utils import process_object, register_class
 from torchtree.distributions.distributions import DistributionModel
 from torchtree.typing import ID
+from torchtree.variational.kl import log_q_per_sample
 
 
 @register_class
@@ -45,7 +46,7 @@ class VR(CallableModel):
     def _call(self, *args, **kwargs) -> torch.Tensor:
         samples = kwargs.get('samples', self.samples)
         self.q.rsample(samples)
-        log_w = (1.0 - self.alpha) * (self.p() - self.q())
+        log_w = (1.0 - self.alpha) * (self.p() - log_q_per_sample(self.q, samples))
         log_w_mean = torch.logsumexp(log_w, dim=-1) - math.log(log_w.shape[-1])
         # [S]: one bound; [S,K]: mean over S of the K-sample bounds
         return log_w_mean.mean() / (1.0 - self.alpha)
